@@ -152,6 +152,37 @@ def random_resize_kw(rng, maxdim=40, algs=None, filters=None, Q=4, pts=None):
     return dict(pt=pt, sw=sw, sh=sh, dw=dw, dh=dh, alg=alg, flt=flt, m=m, alpha=rng.random() < 0.5, box=box, Q=Q, cpu=rng.choice(CPUS))
 
 
+def runs_pixels(pt, npix, rng):
+    """pixels of an alpha type in runs of 1..12: transparent black (all components 0), fully saturated (all components max),
+    opaque with random colours, transparent with random colours, a random alpha with random colours, pure noise -- so that whole
+    SIMD vectors that are all zero / all opaque / all transparent occur at every alignment next to mixed ones"""
+    info = PT[pt]
+    nc = info["nc"]
+    isf = info["comp"] == "f32"
+    mx = 1.0 if isf else info["max"]
+    col = (lambda: rng.random()) if isf else (lambda: rng.randint(0, mx))
+    out, left, mode, a = [], 0, 0, 0
+    for _ in range(npix):
+        if left == 0:
+            left, mode = rng.randint(1, 12), rng.choice([0, 1, 2, 2, 3, 4, 5])
+            a = col()
+        left -= 1
+        if mode == 0:
+            px = [0.0 if isf else 0] * nc
+        elif mode == 1:
+            px = [mx] * nc
+        elif mode == 2:
+            px = [col() for _ in range(nc - 1)] + [mx]
+        elif mode == 3:
+            px = [col() for _ in range(nc - 1)] + [0.0 if isf else 0]
+        elif mode == 4:
+            px = [col() for _ in range(nc - 1)] + [a]
+        else:
+            px = [col() for _ in range(nc)]
+        out += [f32bits(x) for x in px] if isf else px
+    return out
+
+
 def ctl_case(rz, what, to=None):
     c = {"op": "rz_ctl", "rz": rz, "what": what, "_spec": {"ctl": 1, "rz": rz, "what": what}}
     if to is not None:
